@@ -27,15 +27,16 @@ DECIDING = ['jacobian/to_sphere_quotient', 'jacobian/to_sphere_coordinate', 'jac
             'jacobian/to_discrete_probability_sphere', 'jacobian/to_trace1_psd_cholesky', 'jacobian/to_trace1_psd_ensemble', 'jacobian/to_symmetric_matrix',
             'jacobian/to_special_orthogonal_exp', 'jacobian/to_special_orthogonal_cayley', 'jacobian/to_stiefel_polar', 'jacobian/to_stiefel_qr',
             'jacobian/to_stiefel_choleskyL', 'jacobian/to_stiefel_euler', 'jacobian/to_positive_real_softplus', 'jacobian/to_positive_real_exp',
-            'jacobian/to_open_interval', 'jacobian/Stiefel.forward', 'jacobian/DiscreteProbability.forward', 'verdict/configuration']
+            'jacobian/to_open_interval', 'jacobian/Stiefel.forward', 'jacobian/DiscreteProbability.forward', 'jacobian/Trace1PSD.forward', 'jacobian/Sphere.forward',
+            'jacobian/SymmetricMatrix.forward', 'jacobian/SpecialOrthogonal.forward', 'jacobian/Ball.forward', 'verdict/configuration']
 
 
 def shards(tier, seed):
-    kinds = ['simple', 'psd', 'symmetric', 'so', 'stiefel-polar-qr', 'stiefel-chol-euler', 'stiefel-module', 'drivers']
+    kinds = ['simple', 'psd', 'symmetric', 'so', 'stiefel-polar-qr', 'stiefel-chol-euler', 'stiefel-module', 'module-lifecycle', 'drivers']
     if tier == 'thorough':
         ret = []
         for k in kinds:
-            if k in ('psd', 'so', 'stiefel-polar-qr', 'stiefel-chol-euler', 'stiefel-module'):
+            if k in ('psd', 'so', 'stiefel-polar-qr', 'stiefel-chol-euler', 'stiefel-module', 'module-lifecycle'):
                 ret += [{'name': f'{k}-{i}', 'kind': k, 'part': i, 'nparts': 2} for i in range(2)]
             else:
                 ret.append({'name': k, 'kind': k, 'part': 0, 'nparts': 1})
@@ -45,6 +46,8 @@ def shards(tier, seed):
 
 def expected_dim(name, n, args):
     """dimension of the manifold parametrized (from the statement); n = number of parameters."""
+    if name.endswith('.forward/module'):  # the class form parametrizes the same manifold as the chart it wraps
+        return expected_dim(args['chart'], n, args)
     if name in ('to_positive_real_softplus', 'to_positive_real_exp', 'to_open_interval'):
         return n  # elementwise charts of (0,inf)^n / (a,b)^n: parameter count
     if name == 'to_sphere_quotient':
@@ -76,6 +79,14 @@ def expected_dim(name, n, args):
     raise KeyError(name)
 
 
+def homogeneous_chart(name, args):
+    if name.endswith('.forward/module'):
+        return homogeneous_chart(args['chart'], args)
+    if name in ('to_sphere_quotient', 'to_discrete_probability_sphere', 'to_trace1_psd_cholesky', 'to_trace1_psd_ensemble', 'to_stiefel_polar', 'to_stiefel_qr'):
+        return True
+    return name == 'to_symmetric_matrix' and str(args.get('is_norm1')) == 'True'
+
+
 class Probe:
     def __init__(self, ctx, numqi):
         import torch
@@ -85,6 +96,7 @@ class Probe:
         self.records = {}  # config key -> list of (rank, expected, theta digest, svals)
         self.sample_every = 1
         self._count = 0
+        self.lifecycle = None  # set by the lifecycle workload: part of the configuration key of module-form observations
 
     def jac_rank(self, f, theta):
         torch = self.torch
@@ -133,6 +145,16 @@ class Probe:
             return
         n = theta.numel()
         exp = expected_dim(name, n, args)
+        # parameter regime: a tiny parameter vector is a generic point only of the charts that normalise their argument (homogeneous
+        # of degree 0: the differential has full rank on every ray); it is its own configuration there, so that a chart that
+        # collapses small parameters (absolute threshold on a norm) is not hidden behind the unit-scale draws. For the other charts
+        # a tiny vector sits next to a coordinate singularity (theta=0) and is not a generic point: not judged.
+        tiny = float(np.abs(to_numpy(theta)).max()) < 1e-4
+        if tiny:
+            if not homogeneous_chart(name, args):
+                ctx.inconclusive(f'tiny-parameter-at-non-normalising-chart/{name}')
+                return
+            args = {**args, 'regime': 'tiny-parameters'}
         key = (name, tuple(sorted((k, str(v)) for k, v in args.items())), n)
         self.records.setdefault(key, []).append((rank, exp, to_numpy(theta).copy(), s[:min(len(s), exp + 2)]))
         ctx.evaluations += 1
@@ -254,7 +276,6 @@ class Probe:
                     return torch.func.functional_call(m, {'theta': t}, ())
             probe.observe(f'Stiefel.forward/so', fwd, m.theta.detach(), {'dim': m.dim, 'rank': m.rank, 'is_real': is_real, 'method': m.method})
 
-        ctx.attach(S.Stiefel, 'forward', post=post_stiefel_forward, point='Stiefel.forward')
 
         # weighted simplex: the class form with the optional `weight` (any positive weights: the chart still has rank d-1)
         def post_prob_forward(c):
@@ -269,14 +290,72 @@ class Probe:
                     return torch.func.functional_call(m, {'theta': t}, ())
             probe.observe('DiscreteProbability.forward/weighted', fwd, m.theta.detach(), {'dim': m.dim, 'method': m.method, 'weight_inv': [round(float(x), 6) for x in to_numpy(m.weight_inv)]})
 
-        ctx.attach(I.DiscreteProbability, 'forward', post=post_prob_forward, point='DiscreteProbability.forward')
+        # class forms through their own forward() as a function of their OWN parameter (torch.func.functional_call keeps the real code
+        # path): an instance that was deep-copied, re-loaded or re-used must still be a full-rank chart in its own theta
+        def real_dt(dt):
+            return dt in (torch.float32, torch.float64)
+
+        def chart_of(cls, m):
+            if cls == 'Trace1PSD':
+                return f'to_trace1_psd_{m.method}', {'dim': m.dim, 'rank': m.rank, 'is_real': real_dt(m.dtype)}
+            if cls == 'Sphere':
+                return f'to_sphere_{m.method}', {'dim': m.dim, 'is_real': m.is_real}
+            if cls == 'Ball':
+                return 'to_ball', {'dim': m.dim, 'is_real': m.is_real}
+            if cls == 'DiscreteProbability':
+                return (None, None) if m.weight_inv is not None else (f'to_discrete_probability_{m.method}', {'dim': m.dim})
+            if cls == 'SymmetricMatrix':
+                return 'to_symmetric_matrix', {'dim': m.dim, 'is_trace0': bool(m.is_trace0), 'is_norm1': bool(m.is_norm1), 'is_real': bool(m.is_real)}
+            if cls == 'SpecialOrthogonal':
+                a = {'dim': m.dim, 'is_real': real_dt(m.dtype)}
+                if m.method == 'cayley':
+                    a['order'] = m.cayley_order
+                return f'to_special_orthogonal_{m.method}', a
+            if cls == 'Stiefel':
+                if m.method in ('so-exp', 'so-cayley'):
+                    return None, None  # probed by post_stiefel_forward
+                a = {'dim': m.dim, 'rank': m.rank, 'is_real': real_dt(m.dtype)}
+                if m.method == 'euler':
+                    a['with_phase'] = bool(m.euler_with_phase)
+                return f'to_stiefel_{m.method}', a
+            return None, None
+
+        def post_module_forward(cls):
+            def post(c):
+                if c.exc is not None or probe.lifecycle is None:
+                    return
+                m = c.args[0]
+                if m.batch_size is not None or m.theta.dtype != torch.float64:
+                    return
+                chart, a = chart_of(cls, m)
+                if chart is None:
+                    return
+
+                def fwd(t):
+                    with ctx.quiet():
+                        return torch.func.functional_call(m, {'theta': t}, ())
+                probe.observe(f'{cls}.forward/module', fwd, m.theta.detach(), {**a, 'chart': chart, 'lifecycle': probe.lifecycle})
+            return post
+
+        def both(*posts):
+            def post(c):
+                for f in posts:
+                    f(c)
+            return post
+
+        for cls in ('Trace1PSD', 'Sphere', 'Ball', 'SymmetricMatrix', 'SpecialOrthogonal'):
+            ctx.attach(getattr(I, cls), 'forward', post=post_module_forward(cls), point=f'{cls}.forward/module')
+        ctx.attach(I.DiscreteProbability, 'forward', post=both(post_prob_forward, post_module_forward('DiscreteProbability')), point='DiscreteProbability.forward')
+        ctx.attach(S.Stiefel, 'forward', post=both(post_stiefel_forward, post_module_forward('Stiefel')), point='Stiefel.forward')
 
 
-def draws(ctx, n, ndraw):
+def draws(ctx, n, ndraw, tiny=False):
     out = []
     for i in range(ndraw):
         scale = [0.5, 1.0][i % 2]
         out.append(ctx.rng.normal(size=n) * scale)
+    if tiny:  # the same chart far inside the unit ball (see Probe.observe: its own configuration)
+        out += [ctx.rng.normal(size=n) * sc for sc in (1e-6, 1e-8)]
     return out
 
 
@@ -296,7 +375,7 @@ def run(ctx, shard):
         counter[0] += 1
         if counter[0] % nparts != part or n <= 0:
             return
-        for th in draws(ctx, n, ndraw):
+        for th in draws(ctx, n, ndraw, tiny=homogeneous_chart(name, desc)):
             ctx.set_case({'map': name, **desc, 'nparam': n})
             ctx.case(name, desc, th, sample={'map': name, **desc, 'theta': th} if ctx.rng.random() < 0.01 else None)
             with ctx.guard(name):
@@ -385,6 +464,56 @@ def run(ctx, shard):
                                     m.theta.copy_(torch.tensor(ctx.rng.normal(size=tuple(m.theta.shape)) * [0.5, 1.0][i % 2]))
                                 ctx.case('Stiefel-module', d, r, me, str(dt), to_numpy(m.theta))
                                 m()
+    elif kind == 'module-lifecycle':
+        import copy
+        ctx.workload('realistic')
+        C64, F64 = torch.complex128, torch.float64
+        specs = []
+        for d in dims[:2]:
+            for dt in (F64, C64):
+                for r in sorted({1, d}):
+                    specs += [('Trace1PSD', dict(dim=d, rank=r, method=me, dtype=dt)) for me in ('cholesky', 'ensemble')]
+                    specs += [('Stiefel', dict(dim=d, rank=r, method=me, dtype=dt)) for me in ('polar', 'qr', 'choleskyL')]
+                specs += [('Sphere', dict(dim=d, method=me, dtype=dt)) for me in ('quotient', 'coordinate')]
+                specs += [('Ball', dict(dim=d, dtype=dt)), ('SymmetricMatrix', dict(dim=d, dtype=dt)), ('SymmetricMatrix', dict(dim=d, is_trace0=True, dtype=dt))]
+                specs += [('SpecialOrthogonal', dict(dim=d, method=me, dtype=dt)) for me in ('exp', 'cayley')]
+            specs += [('DiscreteProbability', dict(dim=d, method=me, dtype=F64)) for me in ('softmax', 'sphere')]
+
+        def randomise(m, scale=1.0):
+            with torch.no_grad():
+                m.theta.copy_(torch.tensor(ctx.rng.normal(size=tuple(m.theta.shape)) * scale))
+
+        for cls, kw in specs:
+            counter[0] += 1
+            if counter[0] % nparts != part:
+                continue
+            ctor = getattr(M, cls)
+            for rep in range(2 if ctx.tier == 'quick' else 4):
+                ctx.set_case({'module': cls, 'options': {k: str(v) for k, v in kw.items()}, 'rep': rep})
+                ctx.case('module-lifecycle', cls, {k: str(v) for k, v in kw.items()}, rep)
+                with ctx.guard(f'{cls}.forward'):
+                    try:
+                        m = ctor(**kw)
+                    except (AssertionError, TypeError):
+                        ctx.inconclusive(f'module-options-not-accepted/{cls}')
+                        break
+                    randomise(m)
+                    probe.lifecycle = 'fresh'
+                    m()
+                    m2 = copy.deepcopy(m)           # a deep copy owns its parameters
+                    randomise(m2, [0.5, 1.0][rep % 2])
+                    probe.lifecycle = 'deepcopy-with-new-parameters'
+                    m2()
+                    probe.lifecycle = 'original-after-its-copy-was-used'
+                    m()
+                    m3 = ctor(**kw)                 # parameters restored from a state_dict
+                    m3.load_state_dict(m2.state_dict())
+                    probe.lifecycle = 'load_state_dict'
+                    m3()
+                    randomise(m)                    # in-place parameter update (what an optimizer does), same object evaluated again
+                    probe.lifecycle = 'in-place-update-then-call-again'
+                    m()
+                    probe.lifecycle = None
     elif kind == 'drivers':
         # thetas visited by an optimizer (module parameters are unbatched float64 vectors => probed on every call, sampled 1 in 5)
         ctx.workload('realistic')
